@@ -787,6 +787,11 @@ class _FutureImportRule(SyntaxRule):
 
     def is_issue(self, node):
         if _is_future_import(node):
+            if node.level and self._normalizer.version >= (3, 13):
+                # Since Python 3.13 a relative import of a module called
+                # __future__ is an ordinary import.
+                return
+
             if not _is_future_import_first(node):
                 return True
 
